@@ -20,7 +20,7 @@ DOMAIN = "inputs are in the writer's documented domain (ascending keys, NUL-free
 BOUNDED = "Shows absence of counterexamples only within the explored cases; nothing is proved."
 
 C("C01", "TestC01", P(3000), P(20000, 16, 1500),
-  rule="rapid-generated (config, limits, sorted refs, sorted logs; names with shared stems, multi-byte UTF-8 and 0x01/0x7f/0xff bytes, lengths up to 3000; update-index deltas around the varint size boundaries; a rare 'bulk' shape of 65534..70000 tiny records in one block to pass the 65535-restart cap); written with Writer, read back with a full scan through ByteBlockSource or a file; "
+  rule="rapid-generated (config, limits, sorted refs, sorted logs; names with shared stems, multi-byte UTF-8 and 0x01/0x7f/0xff bytes, lengths up to 3000; update-index deltas around the varint size boundaries; a rare 'bulk' shape of 65534..70000 tiny records in one block to pass the 65535-restart cap; in 1/50 of the cases a 'big' shape: block sizes 8192..32768 with 2..9 records most of which are symrefs whose target is a quarter block to almost a block long, so that blocks end early and are padded by kilobytes); written with Writer, read back with a full scan through ByteBlockSource or a file; "
        "non-trivial = >=2 records and (more than one block, or a deletion record, or a log section); distinct = hash of the case JSON",
   technique="property-based testing (rapid): write/read round-trip against the generated record lists",
   level_text="Generated-input search: thousands of generated tables over all configuration fields are written and scanned back; exact equality with the generated records (every field, order, count). " + BOUNDED,
@@ -28,7 +28,7 @@ C("C01", "TestC01", P(3000), P(20000, 16, 1500),
   assumptions=[DOMAIN])
 
 C("C02", "TestC02", P(1200), P(8000, 16, 1500),
-  rule="rapid-generated tables biased to many small blocks (index depth 0..3+); for every stored key its predecessor/successor/prefix neighbours, '', beyond-last and drawn keys are sought "
+  rule="rapid-generated tables biased to many small blocks (index depth 0..3+), plus the bulk and big-record shapes of C01; for every stored key its predecessor/successor/prefix neighbours, '', beyond-last and drawn keys are sought "
        "(refs: SeekRef+ReadRef; logs: SeekLog+ReadLogAt at idx in {stored, +-1, 0, max}); oracle = suffix of the generated sorted list; "
        "non-trivial = the sought section has >=2 blocks and >=2 records; distinct = hash of the case JSON",
   technique="property-based testing (rapid): seek result vs. suffix of the generated list (metamorphic: seek == suffix of scan)",
@@ -47,7 +47,7 @@ C("C03", "TestC03", P(1000), P(6000, 16, 1500),
 
 C("C11", "TestC11", P(4000), P(20000, 16, 1500),
   rule="rapid-generated single tables (hash pools of 1..200 ids, peeled values, object index on/off, single/multi-block/indexed object section, truncated position lists, min update index > 0) "
-       "and stacks of 1..5 tables (raw NewMerged and NewStack view) where refs are deleted or re-pointed in newer tables; queries = every id in the case, near-miss ids sharing a prefix, zero/ff ids, drawn ids; "
+       "and stacks of 1..5 tables (raw NewMerged and NewStack view) where refs are deleted or re-pointed in newer tables, half of the stacks drawn with 256-byte blocks and 6+ names so that most tables carry an object index (a newer indexed table that has no entry for an id an older table points at); queries = every id in the case, near-miss ids sharing a prefix, zero/ff ids, drawn ids; "
        "oracle = filter of the generated refs (stack: overlay) by value/peeled == id, compared in order with all fields, and with ReadRef of each name; "
        "non-trivial = (table with an object section, or stack with a shadowed hit) and >=1 query with hits; distinct = hash of the case JSON",
   technique="property-based testing (rapid): RefsFor vs. filtering the generated refs / overlay model",
@@ -87,7 +87,7 @@ C("C09", "TestC09", P(800), P(5000, 16, 1500),
   assumptions=[DOMAIN, "handles act one after another (no overlap)"])
 
 C("C12", "TestC12", P(1500), P(8000, 16, 1500),
-  rule="rapid-generated histories of 3..25 transactions over 13 names rich in prefix relations plus 10 invalid names; each transaction 1..4 additions (value/peeled/symref) and deletions; "
+  rule="rapid-generated histories of 3..25 transactions over a pool of 19 names rich in parent/child/sibling relations, or (half of the cases) names grown from 1..4 components over {a,b,c,ab}, plus 10 invalid names; each transaction 1..4 additions (value/peeled/symref) and deletions; "
        "submitted through Add and through 2..3-table Additions (committed or abandoned), name check on (4/5) or off; "
        "oracle from the property's wording: accepted iff every added name is valid and (live - deletions) + additions has no pair x, x/...; both directions; live set re-read and re-checked after every step; view == model; "
        "non-trivial = a transaction with a deletion and an addition related by prefix, or a multi-table Addition; distinct = hash of the case JSON",
@@ -109,7 +109,7 @@ C("C17", "TestC17", P(400, env={"VERIF_C17_MAXLEN": 4}), P(1500, 16, 2400, env={
   exhaustive_part="all size vectors up to the stated length over the 12 representative sizes")
 
 C("C14", "TestC14", P(3000), P(20000, 16, 1500), level="translation_validation",
-  rule="each emitted table file is one program: 3/4 of the cases are C01-style generated tables (bytes from the writer), 1/4 are C07-style stack histories whose every new *.ref file (written by Add or by compaction) is read from disk; "
+  rule="each emitted table file is one program: 3/4 of the cases are C01-style generated tables (bytes from the writer; including the bulk and big-record shapes), 1/4 are C07-style stack histories whose every new *.ref file (written by Add or by compaction) is read from disk; "
        "each file is decoded by specdec, an independent decoder written from the format specification that walks the file sequentially and validates header/footer/CRC, section positions, block types/lengths/padding, restart tables, key order, "
        "every index level (entries == last key + position of each child, children == all blocks of the level below), the object index (prefix length, exact ref-block lists, completeness) and update-index range, "
        "then its records are compared with the source records (for compaction outputs: the raw overlay of the inputs, tombstones optionally dropped when the range starts at the oldest table); "
